@@ -42,8 +42,28 @@ class Sig:
     def __init__(self, kind, val=None): self.kind, self.val = kind, val
 
 
+CANON = {'pc8': 'u8', 'pi16': 's16', 'ps16': 's16'}     # plain `char` is unsigned, plain `int` / `short` are signed (no -fsigned-char option in the families)
+
+
+def canonical(prog):
+    """a copy of the program with the spelling-only type codes (plain char / int / short) replaced by their meaning"""
+    import copy
+    q = copy.deepcopy(prog)
+    ct = lambda t: (('arr', CANON.get(t[1], t[1]), t[2]) if isinstance(t, tuple) else CANON.get(t, t))
+    q.globs = [(ct(t), n) for t, n in q.globs]
+    def blocks(b):
+        if isinstance(b, Block): b.decls = [(ct(t), n, i) for t, n, i in b.decls]
+        for k in b.kids(): blocks(k)
+    for f in q.funcs:
+        f.params = [(ct(t), n) for t, n in f.params]; f.ret = ct(f.ret) if f.ret else f.ret
+        blocks(f.body)
+    blocks(q.main)
+    return q
+
+
 class Ref:
     def __init__(self, prog, layout, sess, mode='ISO', max_iters=40, max_paths=300, hw=None):
+        prog = canonical(prog)
         self.P, self.L, self.S, self.mode = prog, layout, sess, mode
         self.max_iters, self.max_paths = max_iters, max_paths
         self.gt = prog.gtypes()
